@@ -9,8 +9,13 @@ pub mod call_models {
     /// `Arc<AtomicUsize>` request-id counter: fetch_add hands out pairwise distinct values (A-ids)
     #[verifier::external_body] pub struct NextId { _p: u8 }
     impl NextId {
+        /// identity of the shared atomic counter behind the Arc
+        pub uninterp spec fn counter(&self) -> int;
         #[verifier::external_body]
         pub fn fetch_add(&self, n: usize) -> (r: usize) { unimplemented!() }
+        /// Arc::clone: the same counter
+        #[verifier::external_body]
+        pub fn clone(&self) -> (r: NextId) ensures r.counter() == self.counter() { unimplemented!() }
     }
     pub struct SendError;
     /// `mpsc::Sender<DispatchRequest>`: the queue to the dispatch
@@ -19,6 +24,11 @@ pub mod call_models {
     #[verifier::accept_recursive_types(Resp)]
     pub struct ToDispatch<Req, Resp> { _p: core::marker::PhantomData<(Req, Resp)> }
     impl<Req, Resp> ToDispatch<Req, Resp> {
+        /// identity of the dispatch's request queue
+        pub uninterp spec fn queue(&self) -> int;
+        /// mpsc::Sender::clone: the same queue
+        #[verifier::external_body]
+        pub fn clone(&self) -> (r: ToDispatch<Req, Resp>) ensures r.queue() == self.queue() { unimplemented!() }
         #[verifier::external_body]
         pub async fn send(&self, d: DispatchRequest<Req, Resp>, Tracked(fx): Tracked<&mut GFx>) -> (r: Result<(), SendError>)
             ensures final(fx).log == old(fx).log.push(GEffect::Enqueue { id: d.request_id, chan: d.response_completion.chan(), ctx: d.ctx })
